@@ -55,6 +55,8 @@ theorem cleanLocked_of_le (now : Nat) (l : Nat → Nat) (j : Nat) (h : now ≤ l
   unfold State.lockUTXOs; split <;> rfl
 @[simp] theorem lockUTXOs_height (s : State) (ids) : (s.lockUTXOs ids).height = s.height := by
   unfold State.lockUTXOs; split <;> rfl
+@[simp] theorem lockUTXOs_cmHeight (s : State) (ids) : (s.lockUTXOs ids).cmHeight = s.cmHeight := by
+  unfold State.lockUTXOs; split <;> rfl
 @[simp] theorem lockUTXOs_poolV1 (s : State) (ids) : (s.lockUTXOs ids).poolV1 = s.poolV1 := by
   unfold State.lockUTXOs; split <;> rfl
 @[simp] theorem lockUTXOs_poolV2 (s : State) (ids) : (s.lockUTXOs ids).poolV2 = s.poolV2 := by
@@ -870,7 +872,9 @@ theorem inv_step (S : Sorter) (s : State) (h : Inv s) (hn : (s.utxos.map (·.id)
   | mine w r => exact inv_of_core h (mine_core s w r)
   | tick d => exact inv_tick s h d
   | restart f => exact inv_restart s f
-  | env u hh p1 p2 => exact inv_of_core h rfl
+  | env u hh ch p1 p2 => exact inv_of_core h rfl
+  | lag k => exact inv_of_core h rfl
+  | sync => exact inv_of_core h rfl
 
 theorem inv_init (cfg : Cfg) : Inv (State.init cfg) := inv'_restart _ _
 
